@@ -121,12 +121,13 @@ def run(ctx):
     t0 = time.time()
 
     rnd = random.Random(int(ctx.seed) * 104729 + 43)
-    walks, edges_total, edges_covered, n_expire = [], 0, 0, 0
+    walks, edges_total, edges_covered, n_expire, n_cut, n_steps = [], 0, 0, 0, 0, 0
     expire_budget = ctx.pick(24, 100000)
     for cdn in ("TRUE", "FALSE"):
         ws, covered, total = walk.edge_cover(graphs[cdn], maxlen=ctx.pick(14, 16), seed=int(ctx.seed),
                                              limit=ctx.pick(70, None))
         edges_total += total
+        edges_covered += covered
         for w in ws:
             steps = [_step(lab) for (lab, _) in w]
             ne = sum(1 for s in steps if s["op"] == "expire")
@@ -135,10 +136,11 @@ def run(ctx):
                 k = next(i for i, s in enumerate(steps) if s["op"] == "expire")
                 steps = steps[:k]
                 ne = 0
+                n_cut += 1
                 if not steps:
                     continue
             n_expire += ne
-            edges_covered += len(steps)
+            n_steps += len(steps)
             for i, s in enumerate(steps):
                 s["probes"] = _probes(rnd, ctx.pick(6, 24), i)
             wid = len(walks) + 1
@@ -197,14 +199,16 @@ def run(ctx):
     ctx.set("traces_validated_against_impl", len(recs))
     ctx.set("walks", len(recs))
     ctx.set("edges_in_graph", edges_total)
-    ctx.set("edges_replayed", edges_covered)
+    ctx.set("edges_covered_by_walks", edges_covered)
+    ctx.set("walks_cut_before_an_expiry", n_cut)
+    ctx.set("steps_replayed", n_steps)
     ctx.set("expiry_steps", n_expire)
     ctx.set("open_requests", nopen)
     ctx.set("open_requests_that_created_a_session", nopen_ok)
     ctx.set("media_requests", nreq)
     ctx.set("media_requests_served", nserved)
     ctx.set("drift_events", drift)
-    ctx.set("exhaustive", bool(ctx.thorough) and edges_covered == edges_total)
+    ctx.set("exhaustive", bool(ctx.thorough) and edges_covered == edges_total and n_cut == 0)
     if drift:
         ctx.note("%d observed answers differ from layer 1 without violating the statement (DRIFT)" % drift)
     if nserved < 50:
